@@ -119,3 +119,38 @@ PROPS["C09"] = {
         },
     ],
 }
+
+PROPS["C10"] = {
+    "level": "model_checking",
+    "claim": "Bounded symbolic differential checking of the token level of CUE's JSON decoding path against Go's encoding/json: every valid JSON string literal within the bound is accepted by literal.Unquote with exactly encoding/json's value, scans as one STRING token and survives PatchExpr's re-quoting; every valid JSON number spelling within the bound is accepted by literal.ParseNum with the same digits and int/float kind and scans as one number token; CUE-only number spellings are stopped by the json.Valid gate. Lone surrogate escapes are a recorded known finding.",
+    "note": "Trusted: go/ssa, the executor, z3; encoding/json's checkValid/unquote are executed from source as the reference. Outside: encoding/json's reflection-based encoder and its string escaper, Decimal formatting, streaming decoder buffering, nesting, duplicate keys, object/array framing of the encoder, inputs longer than the bounds.",
+    "technique": "bounded symbolic execution of literal.Unquote / ParseNum / scanner.Scan and of encoding/json's validator and unquoter from go/ssa on the same symbolic bytes; agreement assertions decided by z3",
+    "bounds": {
+        "quick": "string literals with <= 3 arbitrary (valid UTF-8) content bytes; \\uXXXX with 4 arbitrary bytes; \\udXXX\\udYYY with 6 arbitrary bytes (surrogate pairs and their neighbours); number spellings <= 5 bytes",
+        "thorough": "string content <= 5 bytes; number spellings <= 7 bytes",
+    },
+    "outside": ["encoding/json reflection encoder and string escaper (stdlib, reached only through json.NewEncoder)", "Decimal.Append formatting", "nesting / duplicate keys / framing", "JSON text that is not valid UTF-8 (RFC 8259 requires UTF-8)"],
+    "assumptions": ["(*literal.NumInfo).decimal stubbed to succeed (values of literals: C06)", "encoding/json.unquote reached through a linkname alias"],
+    "runs": [
+        {
+            "pkg": "./internal/encoding/json",
+            "harness": ["cuejson/tokens.go"],
+            "entries": {
+                "quick": [
+                    {"name": "verifHarnessJSONString", "params": {"N": 3}},
+                    "verifHarnessJSONUnicodeEscapes",
+                    "verifHarnessJSONSurrogatePairs",
+                    {"name": "verifHarnessJSONNumber", "params": {"N": 5}},
+                    {"name": "verifHarnessJSONNumberGate", "params": {"N": 5}},
+                ],
+                "thorough": [
+                    {"name": "verifHarnessJSONString", "params": {"N": 5}},
+                    "verifHarnessJSONUnicodeEscapes",
+                    "verifHarnessJSONSurrogatePairs",
+                    {"name": "verifHarnessJSONNumber", "params": {"N": 7}},
+                    {"name": "verifHarnessJSONNumberGate", "params": {"N": 6}},
+                ],
+            },
+        },
+    ],
+}
